@@ -102,6 +102,27 @@ def mc_parse(ctx, maxlen, dev="{}", used1=True, negative=False, name=None):
                   spec="Spec", name=name or "MC_Parse_%d" % maxlen, workers=C.NCPU, timeout=3000, negative=negative)
 
 
+def mc_parserm(ctx, maxlen, live=True):
+    """ParserM.tla: the explicit-stack parser machine refines the recursive Pratt specification on every token string up to
+    maxlen, never reads past eof, consumes a token per nud / led step, has a bounded stack and terminates."""
+    C.model_check(ctx, "MC_ParserM", {"Dev": "{}", "MaxLen": maxlen}, invariants=["Inv", "NeverStuck"],
+                  properties=["Terminates"] if live else [], spec="FairSpec" if live else "Spec",
+                  name="MC_ParserM_%d" % maxlen, workers=C.NCPU, timeout=3000)
+    C.model_check(ctx, "MC_ParserM", {"Dev": '{"LedNoAdvance"}', "MaxLen": 2}, invariants=["Inv"], spec="Spec",
+                  name="MC_ParserM_neg_LedNoAdvance", workers=4, negative=True)
+
+
+def mc_lexm(ctx, maxlen, live=True):
+    """LexM.tla: the rune-by-rune lexer machine refines Lexer!Lex on every string up to maxlen (two tokenize() calls per
+    history), reads inside the input, takes a linear number of steps, keeps tokens ordered, starts every call with an empty
+    raw-string buffer, terminates; negative control: one lexer object kept across calls (ReuseLexer)."""
+    C.model_check(ctx, "MC_LexM", {"Dev": "{}", "MaxLen": maxlen, "Calls": 2}, invariants=["Refines", "Inv", "NeverStuck"],
+                  properties=["Terminates"] if live else [], spec="FairSpec" if live else "Spec",
+                  name="MC_LexM_%d" % maxlen, workers=C.NCPU, timeout=3000)
+    C.model_check(ctx, "MC_LexM", {"Dev": '{"ReuseLexer"}', "MaxLen": 3, "Calls": 2}, invariants=["Refines"], spec="Spec",
+                  name="MC_LexM_neg_ReuseLexer", workers=8, negative=True)
+
+
 def c04(ctx):
     ctx.rule = ("strings: every token string over a 28-symbol token alphabet up to length 4 (quick: seeded 1/8 slice of length 4; thorough: "
                 "all, plus a slice of length 5), each rendered with no / single / mixed whitespace, expected to compile iff the ABNF chart "
@@ -119,10 +140,11 @@ def c04(ctx):
     if not quick:
         gen_parse(ctx, "strings", "C01", 5, (97, 1))
     gen_parse(ctx, "mutants", "C02", 0, (150, 1) if quick else (7, 1))
-    gen_parse(ctx, "mutants", "C01", 0, (600, 4000000) if quick else (11, 100000))
+    gen_parse(ctx, "mutants", "C01", 0, (600, 4000000) if quick else (90, 1000000))
     gen_parse(ctx, "mutants", "C09n", 0, (12, 1) if quick else (1, 1))
     gen_parse(ctx, "mutants", "C08", 0, (700, 1) if quick else (40, 1))      # slices incl. step 0, negative and huge numbers
-    C.trace_api(ctx, {"compile-accepted", "compile-rejected"}, n=800 if quick else 8000)
+    mc_parserm(ctx, 3 if quick else 4)
+    C.trace_api(ctx, {"compile-accepted", "compile-rejected"}, n=800 if quick else 8000, parse=True, mutants=600 if quick else 6000)
     ctx.exhaustive = False
 
 
@@ -153,6 +175,7 @@ def c14(ctx):
     quick = ctx.tier == Q
     mc_lex(ctx, 3 if quick else 4)
     mc_lex(ctx, 2, alpha="fine", invs=["NoPanic", "OffsetOK", "Unquoted", "QuotedId", "Pipeline"])
+    mc_lexm(ctx, 3)      # the token values above are those of the rune-by-rune machine (Refines), also after an earlier failed call
     gen_text(ctx, "c14", 3 if quick else 4, 1 if quick else 1, cats=EVAL_CATS, contract=False)
     gen_text(ctx, "fine", 2, 1, cats=PARSE_CATS, contract=False)
     gen_text(ctx, "ident", 0, 1, cats=PARSE_CATS, contract=False)
@@ -278,6 +301,7 @@ def c13(ctx):
     mc_api(ctx)
     mc_api(ctx, dev='{"InPlaceSortBy"}', negative=True, name="MC_Api_neg_InPlaceSortBy")
     mc_api(ctx, dev='{"NoIndexReset"}', negative=True, name="MC_Api_neg_NoIndexReset")
+    mc_lexm(ctx, 3)      # two tokenize() calls per history on the Parser's lexer: the raw-string buffer does not carry over
     files = C.generate(ctx, "Gen_Api", "api", {"MaxLenH": 4 if quick else 5}, 8 if quick else 16, stride=1 if quick else 1, name="Gen_Api",
                        family_constant=False, timeout=3000)
     C.run_tool(ctx, "history", files, {"history-outcome", "history-fresh", "history-oneshot", "history-differs", "history-compile",
@@ -305,6 +329,10 @@ def c05(ctx):
     mc_lex(ctx, 2, alpha="fine", invs=["NoPanic", "OffsetOK", "Pipeline"])
     mc_lex(ctx, 3, dev='{"UnguardedIdentTable"}', invs=["NoPanic"], negative=True, name="MC_Lex_neg_UnguardedIdentTable")
     mc_parse(ctx, 4 if quick else 5)
+    mc_parserm(ctx, 3 if quick else 4)     # termination measure and no read past eof on the explicit-stack parser machine
+    mc_lexm(ctx, 3)                        # the same for the rune-by-rune lexer machine (linear step count)
+    if not quick:
+        mc_lexm(ctx, 4, live=False)
     gen_text(ctx, "coarse", 3 if quick else 4, 1, cats=PANIC_CATS, contract=False)
     gen_text(ctx, "fine", 2, 1, cats=PANIC_CATS, contract=False)
     gen_text(ctx, "ident", 0, 1, cats=PANIC_CATS, contract=False)
